@@ -41,6 +41,14 @@ class JasmRaised(Exception):
         self.where = where
 
 
+class EnoughFailures(BaseException):
+    """a shard has collected FAIL_CAP failing inputs that no known finding lists: the verdict is settled, exploring the
+    rest of the shard would only cost time (a change that breaks everything can also make every call slow)"""
+
+
+FAIL_CAP = int(os.environ.get("VERIF_FAIL_CAP", "500"))
+
+
 class OperationDeadline(BaseException):
     """One compile or match call of the real code did not return within CALL_DEADLINE_S (BaseException: the code under
     test must not be able to swallow it)."""
@@ -50,7 +58,7 @@ class OperationDeadline(BaseException):
 # allocate without bound ends as a verdict for the input at hand instead of a hung or killed exploration.
 # JASM's own regex timeout is 60 s; the deadline is far above anything the unchanged code needs (< 1 s per call).
 CALL_DEADLINE_S = float(os.environ.get("VERIF_CALL_DEADLINE_S", "240"))
-SHARD_DEADLINE_S = float(os.environ.get("VERIF_SHARD_DEADLINE_S", "1800"))    # quick; thorough: x6
+SHARD_DEADLINE_S = float(os.environ.get("VERIF_SHARD_DEADLINE_S", "900"))    # quick; thorough: x8
 WORKER_MEM_GB = float(os.environ.get("VERIF_WORKER_MEM_GB", "3"))
 
 
@@ -183,14 +191,12 @@ class Harness:
     def listing_file(self, text: str) -> str:
         p = self._listing_cache.get(text)
         if p is None:
-            if len(self._listing_cache) > 20000:
-                for q in self._listing_cache.values():
-                    try:
-                        os.unlink(q)
-                    except OSError:
-                        pass
+            if len(self._listing_cache) > 200000:
+                # forget the names, keep the files: listing sets built earlier still refer to them (they live in the
+                # scratch root, which is removed when the run ends)
                 self._listing_cache.clear()
-            p = self.write(f"l_{os.getpid()}_{len(self._listing_cache)}_{case_key(text)}.s", text)
+                self._listing_gen = getattr(self, "_listing_gen", 0) + 1
+            p = self.write(f"l_{os.getpid()}_{getattr(self, '_listing_gen', 0)}_{len(self._listing_cache)}_{case_key(text)}.s", text)
             self._listing_cache[text] = p
         return p
 
@@ -273,7 +279,8 @@ class Harness:
         c.return_only_address = only_addr
         try:
             with deadline():
-                return mop.perform_matching()
+                r = mop.perform_matching()
+            return list(r) if isinstance(r, list) else r      # a copy: the object must not hand out a list it keeps changing
         except (Exception, OperationDeadline) as e:  # noqa
             raise JasmRaised(e, {"input_file": input_file, "ret": ret, "mode": mode, "only_addr": only_addr,
                                  "rule_file": c.pattern_pathstr}) from e
@@ -331,6 +338,7 @@ class ShardResult:
         self.fail_details: list[dict] = []           # details for failures not listed as known
         self.samples: list = []
         self.error: str | None = None
+        self.unlisted = 0
 
     def count(self, name, n=1):
         self.counters[name] = self.counters.get(name, 0) + n
@@ -340,8 +348,12 @@ class ShardResult:
         key = case_key({k: v for k, v in case.items() if k not in ("observed", "expected", "note", "listing_text")})
         case["key"] = key
         self.fail_keys.append((key, case["clause"], case.get("family", "")))
-        if key not in known_keys and len(self.fail_details) < 40:
-            self.fail_details.append(case)
+        if key not in known_keys:
+            if len(self.fail_details) < 40:
+                self.fail_details.append(case)
+            self.unlisted += 1
+            if self.unlisted >= FAIL_CAP:
+                raise EnoughFailures()
         return key
 
 
@@ -359,6 +371,8 @@ def _worker_entry(args):
         mod.run_shard(shard, tier, h, res, known_keys)
     except HarnessError as e:
         res.error = f"HARNESS: {e}"
+    except EnoughFailures:
+        res.count("shards_stopped_at_failure_cap")
     except JasmRaised as e:
         # the real code raised where a result was expected and the check had no dedicated handler: still a verdict
         w = dict(e.where)
@@ -463,7 +477,7 @@ def _run_pool(jobs, nproc):
             feed(conn, p)
         now = time.time()
         for conn, (p, job, t0) in list(workers.items()):
-            limit = SHARD_DEADLINE_S * (1 if job[2] == "quick" else 6)
+            limit = SHARD_DEADLINE_S * (1 if job[2] == "quick" else 8)
             if conn not in ready and now - t0 > limit:      # calls outside Harness.mop/match have no deadline of their own
                 p.kill()
                 p.join(5)
